@@ -34,7 +34,7 @@ def fn(d, val=lambda v: v):
 
 
 def mc_defs(readers, streams, plan, cols, ncol=1, flushers=None, stoppers=None, maxticks=0, variant="ok",
-            eager=False, conserved=True, abort="may"):
+            eager=False, conserved=True, abort="may", cberr=False, strict=False):
     """readers: [(name, temp, kind)] in pipeline order; plan: {recorder: [(key, i)]}; cols: {collector: reader}"""
     return {
         "RD": fn({n: '[temp |-> "%s", kind |-> "%s"]' % (t, k) for n, t, k in readers}),
@@ -42,8 +42,8 @@ def mc_defs(readers, streams, plan, cols, ncol=1, flushers=None, stoppers=None, 
         "STREAMS": "<<" + ", ".join(q(s) for s in streams) + ">>",
         "PLAN": fn(plan, lambda ids: "<<" + ", ".join('<<"%s", %d>>' % (k, i) for k, i in ids) + ">>"),
         "COLRD": fn(cols, q), "FRD": fn(flushers or {}, q), "SRD": fn(stoppers or {}, q),
-        "NCOL": ncol, "MAXTICKS": maxticks, "VARIANT": variant, "EAGER": "TRUE" if eager else "FALSE", "ABORT": abort,
-        "CONSERVED": "Conserved" if (conserved and variant == "ok") else "",
+        "NCOL": ncol, "MAXTICKS": maxticks, "VARIANT": variant, "EAGER": "TRUE" if eager else "FALSE", "ABORT": abort, "CBERR": "TRUE" if cberr else "FALSE", "STRICT": "Strict" if strict else "",
+        "CONSERVED": "Conserved" if (conserved and variant == "ok" and not cberr) else "",
     }
 
 
@@ -74,8 +74,8 @@ FAMILY_THOROUGH = {
     "cp-g1x2-c1x2-f1-s1-t2": dict(readers=R(CP), streams=["k1"], plan={"g1": [("k1", 0), ("k1", 1)]}, cols={"c1": "r1"}, ncol=2,
                                   flushers={"f1": "r1"}, stoppers={"s1": "r1"}, maxticks=2),
     # periodic delta + two stoppers (sync.Once) + two flushers
-    "dp-g2-f2-s2-t1": dict(readers=R(DP), streams=["k1"], plan={"g1": [("k1", 0)], "g2": [("k1", 1)]}, cols={}, ncol=0,
-                           flushers={"f1": "r1", "f2": "r1"}, stoppers={"s1": "r1", "s2": "r1"}, maxticks=1),
+    "dp-g2-f2-s2": dict(readers=R(DP), streams=["k1"], plan={"g1": [("k1", 0)], "g2": [("k1", 1)]}, cols={}, ncol=0,
+                        flushers={"f1": "r1", "f2": "r1"}, stoppers={"s1": "r1", "s2": "r1"}, maxticks=0),
     # periodic delta next to a manual cumulative reader
     "dp-cm-g2-c1-f1-s1": dict(readers=R(DP, CM), streams=["k1"], plan={"g1": [("k1", 0)], "g2": [("k1", 1)]}, cols={"c1": "r2"},
                               ncol=1, flushers={"f1": "r1"}, stoppers={"s1": "r1"}, maxticks=1),
@@ -103,7 +103,7 @@ def base_scenario(name, readers, nstreams, plan, cols, ncol, flushers=None, stop
         cols=[dict(name=c, reader=r, n=ncol, provider=False, delayUs=0) for c, r in sorted(cols.items())],
         flushers=[dict(name=f, reader=r, n=1, provider=False, delayUs=0) for f, r in sorted((flushers or {}).items())],
         stoppers=[dict(name=z, reader=r, provider=False, delayUs=0) for z, r in sorted((stoppers or {}).items())],
-        callback=True, filter=True, script=script or [], perturb=0.0, storm=False)
+        callback=True, filter=True, script=script or [], perturb=0.0, storm=False, ownHandles=False, cbErrPct=0, cbErrAt=[])
 
 
 SIMS = {
@@ -143,6 +143,12 @@ DIRECTED = [
                                                        cols={"c1": "r2"}, ncol=1, flushers={"f1": "r1"}, stoppers={"s1": "r1", "s2": "r1"}),
          script=["g1:1@call", "g1:1@f1", "g1:1@f2", "f1@call", "run_r1@cb", "run_r1@export", "g1:2@call", "g1:2@f1", "g1:2@f2",
                  "s1@call", "s2@call", "s1@cb", "c1:1@call", "c1:1@cb", "s1@export"]),
+    # D1 (known finding): the callback fails during the first flush: the interval is collected, cleared and dropped
+    dict(name="D1-callback-error-drops-interval", cbErrAt=[1],
+         cfg=dict(readers=R(DP), streams=["k1"], plan={"g1": [("k1", 0), ("k1", 1)]}, cols={}, ncol=0,
+                  flushers={"f1": "r1", "f2": "r1"}, stoppers={"s1": "r1"}),
+         script=["g1:1@call", "g1:1@f1", "f1@call", "run_r1@cb", "g1:2@call", "g1:2@f1", "f2@call", "run_r1@cb", "run_r1@export",
+                 "s1@call", "s1@cb", "s1@export"]),
     # user Collect on a periodic reader takes the data while a ForceFlush is pending: flush exports nothing, nothing lost
     dict(name="user-collect-steals-from-flush", cfg=dict(readers=R(DP), streams=["k1"], plan={"g1": [("k1", 0), ("k1", 1)]},
                                                          cols={"c1": "r1"}, ncol=2, flushers={"f1": "r1"}, stoppers={"s1": "r1"}),
@@ -151,7 +157,13 @@ DIRECTED = [
 ]
 
 
-def scenario_of(name, cfg, script):
+def scenario_of(name, cfg, script, **extra):
+    sc = _scenario_of(name, cfg, script)
+    sc.update(extra)
+    return sc
+
+
+def _scenario_of(name, cfg, script):
     return base_scenario(name, cfg["readers"], len(cfg["streams"]), cfg["plan"], cfg.get("cols", {}), cfg.get("ncol", 1),
                          cfg.get("flushers"), cfg.get("stoppers"), script)
 
@@ -160,7 +172,7 @@ def classify(v):
     """violation record -> small flat signature (matched against known_findings/C02.json)"""
     vv = v.get("v", {})
     sig = {"kind": vv.get("kind", "?")}
-    for k in ("temp", "via"):
+    for k in ("temp", "via", "rkind"):
         if k in vv:
             sig[k] = vv[k]
     return sig
@@ -180,9 +192,10 @@ def run(ctx):
             m = re.match(r"<(\w+) line \d+, col \d+ to line \d+, col \d+ of module MetricSum>: (\d+):(\d+)", line)
             if m and m.group(1) != "Init":
                 cov[m.group(1)] = max(cov.get(m.group(1), 0), int(m.group(3)))
-    # vacuity: every action of the mechanism is taken in some configuration of the family (Clear belongs to
-    # the broken "split" variant only; SOnceWait needs two stoppers = thorough family)
-    zero = sorted(a for a, n in cov.items() if n == 0 and a != "Clear" and not (a == "SOnceWait" and not thorough))
+    # vacuity: every action of the mechanism is taken in some configuration of the family (Clear belongs to the broken
+    # "split" variant, DropOnCbErr/PartialOnCbErr to the D1 configuration; SOnceWait needs two stoppers = thorough family)
+    variant_only = ("Clear", "DropOnCbErr", "PartialOnCbErr")   # broken variant / D1: exercised by the runs that must be violated
+    zero = sorted(a for a, n in cov.items() if n == 0 and a not in variant_only and not (a == "SOnceWait" and not thorough))
     ctx.extra["action_coverage"] = cov
     if zero:
         ctx.note_inconclusive("actions never taken in the exhaustive family (vacuity): %s" % zero)
@@ -204,6 +217,16 @@ def run(ctx):
         if r["violated"] != "Contract":
             ctx.note_inconclusive("model drift: TLC does not find the broken variant %s (%s, see %s)" % (variant, r["violated"], r["out"]))
     ctx.extra["broken_variants_found_by_tlc"] = found
+    # known deviation D1 (callback error -> periodic reader drops the interval): the model exhibits it (Strict violated),
+    # and with D1 admitted nothing else breaks
+    kw = dict(FAMILY_QUICK["dp-g1x2-c1-f1-s1-t1"])
+    r = ctx.tlc(S, "MC_MetricSum", "MC_MetricSum.cfg", defines=mc_defs(cberr=True, strict=True, **kw), name="mc-D1-strict",
+                must_pass=False, count=False, timeout=1200)
+    ctx.extra["model_exhibits_D1"] = (r["violated"] == "Strict")
+    if r["violated"] != "Strict":
+        ctx.note_inconclusive("model drift: TLC does not find D1 when it is not admitted (%s, see %s)" % (r["violated"], r["out"]))
+    if thorough:
+        ctx.tlc(S, "MC_MetricSum", "MC_MetricSum.cfg", defines=mc_defs(cberr=True, **kw), name="mc-D1-admitted", timeout=3000)
 
     # ------------------------------------------------------------ spec -> code: behaviours as gate scripts
     scenarios = []
@@ -220,7 +243,7 @@ def run(ctx):
     nbeh = len(scenarios)
     for d in DIRECTED:
         for rep in range(4 if thorough else 2):
-            scenarios.append(scenario_of(d["name"], d["cfg"], d["script"]))
+            scenarios.append(scenario_of(d["name"], d["cfg"], d["script"], cbErrAt=d.get("cbErrAt", [])))
     sfile = os.path.join(ctx.work, "scripts.json")
     json.dump(scenarios, open(sfile, "w"))
     jobs = [("scripts", ["scripts", "-in", sfile])]
@@ -303,11 +326,13 @@ def run(ctx):
             ctx.note_inconclusive("binding self-test: corrupted trace (%s) was not rejected as %s (got %s)" % (label, want, got))
     ctx.extra["trace_lines_validated"] = lines_total
     ctx.extra["violation_kinds_seen"] = kinds
+    if "lost-after-callback-error" not in kinds and any(k.get("status") == "known" for k in ctx._known):
+        ctx.extra["note"] = "the known deviation D1 was not reproduced in this run (fixed tree?): %s" % kinds
     ctx.traces_validated += executed
     ctx.evaluations += counters.get("adds", 0) + counters.get("reports", 0)
     # vacuity of the drivers: the interesting regimes must have been reached
     need = ["reports_nonempty_delta", "reports_with_adds_in_flight", "exports_run_loop", "exports_shutdown", "forceflush_ok",
-            "shutdown_ok", "script_steps_followed"]
+            "shutdown_ok", "script_steps_followed", "callback_errors"]
     missing = [k for k in need if counters.get(k, 0) == 0]
     if missing:
         ctx.note_inconclusive("driver did not reach: %s" % missing)
